@@ -4,65 +4,35 @@ From T4V Require Import Base.Scalar C07.Model C07.ProofsAlgebra.
 Import ListNotations.
 Open Scope nat_scope.
 
-(* the [for] loop over the missing bounds never runs: whenever the two lengths
-   differ and the loop is reached, n_missing_bounds is negative *)
+(* develop_lattice accepts the FILL ranges exactly when there is one range per
+   base vector and every range beyond them is lo = hi — MCNP's rule: a lattice
+   without base vector in a direction has the one-element range there, every
+   other range is free (one-point ranges included) *)
 Theorem domain_check_spec (nvec : nat) (bounds : list (Z * Z)) :
-  nvec <= List.length bounds ->
-  domain_check nvec bounds =
-  if Nat.eqb nvec (List.length bounds) || Nat.eqb nvec (bounds_dims bounds) then Ok tt else Err ELattice.
+  domain_check nvec bounds = Ok tt <->
+  nvec <= List.length bounds /\ Forall (fun r => fst r = snd r) (skipn nvec bounds).
 Proof.
-  intros Hle. unfold domain_check.
-  destruct (Nat.eqb nvec (List.length bounds)) eqn:E1; [reflexivity|].
-  cbn [orb]. destruct (Nat.eqb nvec (bounds_dims bounds)) eqn:E2; [|reflexivity].
-  cbn [negb]. apply Nat.eqb_neq in E1.
-  replace (Z.to_nat (Z.of_nat nvec - Z.of_nat (List.length bounds))) with 0 by lia.
-  reflexivity.
+  unfold domain_check. destruct (Nat.ltb (List.length bounds) nvec) eqn:E1.
+  - apply Nat.ltb_lt in E1. split; [discriminate|]. intros [H _]. lia.
+  - apply Nat.ltb_ge in E1.
+    destruct (forallb (fun r => negb (nontrivial r)) (skipn nvec bounds)) eqn:E2.
+    + split; [|reflexivity]. intros _. split; [exact E1|].
+      apply Forall_forall. intros r Hr. rewrite forallb_forall in E2. specialize (E2 r Hr).
+      unfold nontrivial in E2. rewrite negb_involutive in E2. apply Z.eqb_eq. exact E2.
+    + split; [discriminate|]. intros [_ H]. exfalso.
+      assert (F : forallb (fun r => negb (nontrivial r)) (skipn nvec bounds) = true).
+      { apply forallb_forall. intros r Hr. rewrite Forall_forall in H. specialize (H r Hr).
+        unfold nontrivial. rewrite negb_involutive. apply Z.eqb_eq. exact H. }
+      rewrite F in E2. discriminate.
 Qed.
 
-Lemma bounds_dims_le bounds : bounds_dims bounds <= List.length bounds.
+(* a rejected FILL is rejected with LatticeError *)
+Theorem domain_check_error (nvec : nat) (bounds : list (Z * Z)) :
+  domain_check nvec bounds = Ok tt \/ domain_check nvec bounds = Err ELattice.
 Proof.
-  unfold bounds_dims. induction bounds as [|x r IH]; [apply le_n|].
-  cbn [filter]. destruct (nontrivial x); cbn [List.length]; lia.
+  unfold domain_check. destruct (Nat.ltb (List.length bounds) nvec); [right; reflexivity|].
+  destruct (forallb _ _); [left|right]; reflexivity.
 Qed.
-
-(* MCNP: a lattice without a base vector in some direction has the one-element
-   range 0:0 (lo = hi) there; every other range is free.  Guarded statement:
-   accepted when, besides, all the leading ranges are non-trivial. *)
-Theorem domain_check_guarded (nvec : nat) (bounds : list (Z * Z)) :
-  nvec <= List.length bounds ->
-  forallb nontrivial (firstn nvec bounds) = true ->
-  forallb (fun r => negb (nontrivial r)) (skipn nvec bounds) = true ->
-  domain_check nvec bounds = Ok tt.
-Proof.
-  intros Hle H1 H2. rewrite domain_check_spec by exact Hle.
-  assert (E : bounds_dims bounds = nvec).
-  { unfold bounds_dims. rewrite <- (firstn_skipn nvec bounds) at 1.
-    rewrite filter_app, app_length.
-    assert (F1 : filter nontrivial (firstn nvec bounds) = firstn nvec bounds).
-    { clear H2. induction (firstn nvec bounds) as [|x r IH]; [reflexivity|].
-      cbn in *. apply andb_true_iff in H1. destruct H1 as [Hx Hr]. rewrite Hx, (IH Hr). reflexivity. }
-    assert (F2 : filter nontrivial (skipn nvec bounds) = []).
-    { clear H1. induction (skipn nvec bounds) as [|x r IH]; [reflexivity|].
-      cbn in *. apply andb_true_iff in H2. destruct H2 as [Hx Hr].
-      apply negb_true_iff in Hx. rewrite Hx. exact (IH Hr). }
-    rewrite F1, F2, firstn_length. cbn. lia. }
-  rewrite E, Nat.eqb_refl, orb_true_r. reflexivity.
-Qed.
-
-(* the defect behind the finding six_planes_trivial_range: the full statement
-   (trailing ranges trivial => accepted) is false of the code *)
-Theorem six_planes_trivial_range_refuted :
-  exists bounds : list (Z * Z),
-    List.length bounds = 3 /\
-    forallb (fun r => negb (nontrivial r)) (skipn 2 bounds) = true /\
-    domain_check 2 bounds = Err ELattice.
-Proof. exists [(-1, 1); (0, 0); (0, 0)]%Z. repeat split. Qed.
-
-(* and the converse defect: a range in a direction without base vector is
-   accepted as soon as the count of non-trivial ranges fits *)
-Theorem axial_range_without_vector_accepted :
-  domain_check 2 [(-1, 1); (0, 0); (-1, 1)]%Z = Ok tt.
-Proof. reflexivity. Qed.
 
 (* ---------- latticeVector ---------- *)
 Open Scope R_scope.
